@@ -4,6 +4,19 @@ import math
 import numpy as np
 
 
+import os as _os
+
+_LAYOUTS = _os.environ.get("VERIF_LAYOUTS", "1") != "0"
+
+
+def _lay(arr, off):
+    """Every table array comes in a memory layout that rotates with (offset, shape): the values are what the tables define,
+    the strides vary (C, Fortran, negative strides, strided view) - layout-dependent code paths are exercised for free."""
+    if not _LAYOUTS:
+        return arr
+    return relayout(arr, int(off) + arr.ndim + (arr.shape[0] if arr.ndim else 0))
+
+
 def _primes(n):
     out, c = [], 2
     while len(out) < n:
@@ -26,13 +39,13 @@ def ints(shape, off=0, k=3, nonzero=False):
         if nonzero and v == 0:
             v = 1 + (i % k)
         vals.append(v)
-    return np.array(vals, dtype=np.float64).reshape(shape)
+    return _lay(np.array(vals, dtype=np.float64).reshape(shape), off)
 
 
 def posints(shape, off=0, k=4):
     n = int(np.prod(shape)) if len(shape) else 1
     vals = [(_P[(i * 5 + off * 11 + 3) % len(_P)] + i) % k + 1 for i in range(n)]
-    return np.array(vals, dtype=np.float64).reshape(shape)
+    return _lay(np.array(vals, dtype=np.float64).reshape(shape), off)
 
 
 def gauss_ints(shape, off=0, k=2):
@@ -48,7 +61,7 @@ def generic(shape, off=0, signed=True):
         if f < 1e-3:
             f += 0.37
         vals.append(f - 0.5 if signed else f + 0.05)
-    return np.array(vals, dtype=np.float64).reshape(shape)
+    return _lay(np.array(vals, dtype=np.float64).reshape(shape), off)
 
 
 def lowrank_cp(shape, rank, off=0, nonneg=False, integer=False):
